@@ -55,7 +55,25 @@ def r1(ctx, vb, core):
     where = ctx.where(vb, bb)
     chunked = []
     for a in args:
-        ads = [x for x in walk(a) if x.tag == 'adapt']
+        # adapters on the spine of the argument (element of .. of the input), not those inside the mutation history of the input
+        ads = []
+        x = a
+        while True:
+            if x.tag == 'mut':
+                x = x[1]
+            elif x.tag in ('elem',):
+                x = x[1]
+            elif x.tag == 'via':
+                ads.append(x)
+                x = x[2]
+            elif x.tag == 'adapt':
+                ads.append(x)
+                x = x[2]
+            elif x.tag in ('field', 'elemat'):
+                ads += [y for y in walk(x) if y.tag == 'adapt']
+                break
+            else:
+                break
         chunked.append(ads)
     names = ['transcripts', 'statements', 'proofs']
     if not any(chunked):
@@ -96,6 +114,11 @@ def r1(ctx, vb, core):
         el = mk_elem(ctx.eng, lp.iter_term)
         comps = [x for x in walk(el) if x.tag == 'elem']
     fed = all(any(strip_mut(a) is c for c in comps) for a in args) if iter_ok else False
+    if iter_ok and not fed and getattr(lp, 'window', None) is not None:
+        # a cursor loop: every argument is the window of the one cursor over its own (equally long) input
+        C_ = lp.window[2]
+        fed = all(strip_mut(a).tag == 'elem' and strip_mut(strip_mut(a)[1]).tag == 'adapt' and strip_mut(strip_mut(a)[1])[1] == 'chunks'
+                  and strip_mut(strip_mut(a)[1])[3] is C_ for a in args)
     oks = [s for s in ctx.ok_sites(vb) if not ctx.rejecting(vb, s)]
     dom = all(cfg.dominates(lp.header, s) and s not in lp.blocks for s in oks)
     every = ctx.every_iteration(vb, lp, bb)
